@@ -142,6 +142,7 @@ def run(cx):
         cx.ob('EXPR', 'ParamHandler::p_index', ok, 'parameter slot = body index, minus one past the static body', where=b.file)
 
     euler_rules(cx)
+    set_rules(cx)
 
 
 def jacobian_rules(cx):
@@ -199,6 +200,27 @@ def jacobian_rules(cx):
                 rows[fld] = match(f'(call Matrix::dot {Nn} (field coords (call Matrix::mul (field {ax} (field rd (call *RcParams3::rotations (param params)))) {FR})))', val) is not None
         cx.ob('EXPR', 'point_point_jacobian:rows', rows == {k: True for k in 'xyzwab'},
               'point-to-point row: n = normalize(p - c); translation part n; rotation part n . (rd.x, rd.y, rd.z applied to p - current_rc) in order', where=b.file, found=str(rows))
+
+
+def set_rules(cx):
+    """shared with C07: the optimiser's parameter vector is stored as given (clamping an Euler angle pins the solver at the edge of the principal range)"""
+    for RC, short in (('geom2::align2::rc_params2::RcParams2', 'RcParams2'), ('geom3::align3::RcParams3', 'RcParams3')):
+        sb = cx.fn(f'{RC}::set')
+        if sb:
+            xs = [m for m in sb.mutations() if m.root == 1 and m.path and m.path[0] == 'x']
+            whole = [m for m in xs if m.path == ('x',) and m.kind == 'store']
+            ok = len(xs) == 1 and len(whole) == 1 and match('(param x)', simplify(sb.dag().rvalue(whole[0].data['rv'], whole[0].bb, whole[0].idx))) is not None
+            cx.ob('EXPR', f'{short}::set:x-only-store', ok, f'{short}::set writes x exactly once, as the given vector: no element is adjusted, clamped or wrapped afterwards', where=sb.file,
+                  found='; '.join(str(m) for m in xs))
+    b = cx.fn('geom3::align3::rotations::RotationMatrices::from_euler')
+    if b:
+        got = sorted((show(cx.arg(s, 0)), show(cx.arg(s, 1)), show(cx.arg(s, 2))) for s in b.calls('Unit::from_euler_angles'))
+        want = sorted([('(param rx)', '0.0', '0.0'), ('0.0', '(param ry)', '0.0'), ('0.0', '0.0', '(param rz)')])
+        lits = b.aggregates('geom3::align3::rotations::RotationMatrices')
+        okr = len(lits) == 1 and match('(call *Euler::new (param rx) (param ry) (param rz))', dict(cx.aggval(lits[0])[2:]).get('r')) is not None
+        cx.ob('EXPR', 'RotationMatrices::from_euler:elementary', got == want and okr,
+              'the three elementary rotations are built from the angles AS GIVEN (no wrapping into a principal range: wrapping the pitch with period pi is not the same rotation), and r records those angles',
+              where=b.file, found=str(got))
 
 
 def euler_rules(cx):
